@@ -1,5 +1,8 @@
 PROPS = ["CTV.Props.C16", "CTV.Props.C16Tie"]
-HARNESS = [dict(pkg="./scanner/", test="TestVerifC16", race=True, synctest=True, timeout=1500, env={"GORACE": "log_path=/tmp/verif-c16-race"})]
+HARNESS = [dict(pkg="./scanner/", test="TestVerifC16", race=True, synctest=True, timeout=1500, env={"GORACE": "log_path=/tmp/verif-c16-race"}),
+           # the Fetcher as migrillian's Controller drives it, pass after pass (anchor trillian/migrillian/core/controller.go): oracle only,
+           # the same scenarios are replayed on the migration model by ./check C20
+           dict(pkg="./trillian/migrillian/core/", test="TestVerifC16Controller", race=True, synctest=True, timeout=900, model=False)]
 RULE = ("scans of a scripted scanner.LogClient through the real Fetcher.Run / Scanner.ScanLog under virtual time (testing/synctest) and -race: "
         "tree sizes 0..3200, start/end at and around the boundaries (0, size-1, size, beyond the tree, sub-ranges), batch sizes 1..1000, 1..8 fetchers, "
         "1..8 matchers, channel buffers 0..1000, short reads of 1..asked entries, 429/5xx/network/gRPC-Unavailable/deadline errors, growth between STHs in "
